@@ -466,7 +466,12 @@ def minimize(case, sig):
     cur = dict(case)
     cur['schedule'] = r['schedule']
 
+    budget = [80]       # bounded: a replay file beats a perfect one
+
     def still(c):
+        if budget[0] <= 0:
+            return False
+        budget[0] -= 1
         try:
             rr = run_case(c)
         except Exception:
